@@ -90,7 +90,9 @@ def checkSqlw : P String := do
   let cancelled := tail == some "CANCEL" || nextFail
   let o : WriteOpts := { given := hasOpts, ifExists := ifEx, dialect := dia, batchSize := batch, typeMap := tm }
   let fa : Option Nat := if failAt < 0 then none else some failAt.toNat
-  let c20 := if status == "panic" || status == "hang" then s!"fail:{status}" else "ok"
+  let mut c20 := if status == "panic" || status == "hang" then s!"fail:{status}" else "ok"
+  -- C20: an unknown IfExists / dialect string or a negative batch size is an invalid request: accepting it is a failure
+  if (resolve o).isErr && status == "ok" && failAt < 0 then c20 := firstFail c20 "fail:invalid-request-accepted"
   let own := entry < 2        -- ToSQL / ToSQLContext own the transaction
   let mut c11 := "ok"
   let mut c12 := "ok"
